@@ -76,22 +76,23 @@ type c13Viol struct {
 }
 
 type c13Outcome struct {
-	Idx        int          `json:"idx"`
-	Viols      []c13Viol    `json:"viols,omitempty"`
-	Inconc     string       `json:"inconclusive,omitempty"`
-	Slices     int          `json:"slices"`
-	Requests   int          `json:"requests"`
-	GridPoints int          `json:"grid_points"`
-	DupPoints  int          `json:"dup_points"`
-	GridBefore bool         `json:"grid_starts_before_start"`
-	SeamChange bool         `json:"seam_change"` // a presence change within one step of a seam
-	SeamGaps   int          `json:"seam_gaps"`   // single missing samples at, before or after a seam
-	SeamMerges int          `json:"seam_merges"` // runs continuing across a seam
-	Ranges     int          `json:"ranges"`
-	Orders     []string     `json:"orders,omitempty"` // completion order of the slices, per repetition
-	CachedReqs int          `json:"cached_repeat_requests"`
-	Reps       int          `json:"reps"`
-	Fault      *c13FaultObs `json:"fault,omitempty"`
+	Idx         int          `json:"idx"`
+	Viols       []c13Viol    `json:"viols,omitempty"`
+	Inconc      string       `json:"inconclusive,omitempty"`
+	Slices      int          `json:"slices"`
+	Requests    int          `json:"requests"`
+	GridPoints  int          `json:"grid_points"`
+	DupPoints   int          `json:"dup_points"`
+	GridBefore  bool         `json:"grid_starts_before_start"`
+	SeamChange  bool         `json:"seam_change"` // a presence change within one step of a seam
+	SeamGaps    int          `json:"seam_gaps"`   // single missing samples at, before or after a seam
+	SeamMerges  int          `json:"seam_merges"` // runs continuing across a seam
+	Ranges      int          `json:"ranges"`
+	Orders      []string     `json:"orders,omitempty"` // completion order of the slices, per repetition
+	CachedReqs  int          `json:"cached_repeat_requests"`
+	StepChanges int          `json:"step_change_probes"`
+	Reps        int          `json:"reps"`
+	Fault       *c13FaultObs `json:"fault,omitempty"`
 }
 
 type c13RepResult struct {
@@ -537,10 +538,57 @@ func c13RunCase(srv *c13Server, cs *c13Case) (o c13Outcome) {
 			addViol(c13Viol{Sig: "cached-repeat-differs", What: "asking the same query a second time on the same client returned different ranges"}, &after, res, "repeated c13_rep_0")
 		}
 	}
+	// step change on the same client: the same expression over the same window on
+	// another step must give what a client that never asked the first step gives
+	// (two executions of the real code against the same deterministic server data;
+	// nothing cached for one step grid may leak into the answer for another)
+	if len(cs.DelaySeeds) > 0 && len(o.Viols) == 0 {
+		for _, ns := range []int64{cs.StepS / 2, cs.StepS * 2, cs.StepS / 5, cs.StepS * 5} {
+			if ns < 1 || ns == cs.StepS || (ns < cs.StepS && cs.StepS%ns != 0) {
+				continue
+			}
+			p2 := params
+			p2.step = time.Duration(ns) * time.Second
+			ask := func(g *promapi.FailoverGroup) (string, error) {
+				ctx, cancel := context.WithTimeout(context.Background(), 90*time.Second)
+				defer cancel()
+				r, err := g.RangeQuery(ctx, "c13_rep_0", p2)
+				if err != nil {
+					return "", err
+				}
+				return c13RangeSet(r), nil
+			}
+			shared, err1 := ask(fg)
+			prom2 := promapi.NewPrometheus("c13s", uri, "", nil, 45*time.Second, conc, 1000000, nil)
+			reg2 := prometheus.NewRegistry()
+			fg2 := promapi.NewFailoverGroup("c13s", uri, []*promapi.Prometheus{prom2}, true, "up", nil, nil, nil)
+			fg2.StartWorkers(reg2)
+			fresh, err2 := ask(fg2)
+			fg2.Close(reg2)
+			if err1 != nil || err2 != nil {
+				continue // e.g. more points than the server accepts: no verdict
+			}
+			o.StepChanges++
+			if shared != fresh {
+				lg := live.snapshot("c13_rep_0")
+				addViol(c13Viol{Sig: "step-change:differs-from-fresh-client", What: fmt.Sprintf("after the query on step %ds, the same expression and window on step %ds returned other ranges on the same client than on a client that had asked nothing before (same server data); same client: %s; fresh client: %s", cs.StepS, ns, c13Cut(shared, 300), c13Cut(fresh, 300))}, &lg, nil, "c13_rep_0 on another step")
+			}
+		}
+	}
 	if cs.Fault != nil {
 		o.Fault = c13RunFault(live, uri, cs, addViol)
 	}
 	return o
+}
+
+// c13RangeSet spells the ranges of a result, sorted, for comparison between two executions.
+func c13RangeSet(r *promapi.RangeQueryResult) string {
+	var ls []string
+	for _, x := range r.Series.Ranges {
+		ls = append(ls, fmt.Sprintf("%s %d..%d", x.Labels.String(), x.Start.UnixMilli(), x.End.UnixMilli()))
+	}
+	sort.Strings(ls)
+	return strings.Join(ls, "; ")
 }
 
 func c13KeysOf(m map[string]bool) string {
